@@ -186,6 +186,7 @@ func c11scenario(rep *vh.Report, seed uint64, idx int) {
 	}
 
 	var wg sync.WaitGroup
+	var flowStuck int32
 	for g := 0; g < G; g++ {
 		wg.Add(1)
 		gr := r.Fork()
@@ -219,10 +220,19 @@ func c11scenario(rep *vh.Report, seed uint64, idx int) {
 					if !recv {
 						continue
 					}
-					for atomic.LoadInt32(&s.outstanding[g][ti]) >= int32(W) {
+					for spins := 0; atomic.LoadInt32(&s.outstanding[g][ti]) >= int32(W) && atomic.LoadInt32(&flowStuck) == 0; spins++ {
 						time.Sleep(50 * time.Microsecond)
+						if spins > 60000 || (spins > 3000 && atomic.LoadInt32(&c11flowStuckN) > 0) {
+							// >= 3 s (in practice much more) without one of W outstanding items coming out of a healthy link: items
+							// were lost. Stop issuing writes; the offline checker below names the lost items.
+							atomic.StoreInt32(&flowStuck, 1)
+							atomic.AddInt32(&c11flowStuckN, 1)
+						}
 					}
 					atomic.AddInt32(&s.outstanding[g][ti], 1)
+				}
+				if atomic.LoadInt32(&flowStuck) != 0 {
+					return
 				}
 				var tch *gomavlib.Channel
 				c := c11call{G: g, Op: op, Target: target, UID: uid}
@@ -503,6 +513,9 @@ func c11scenario(rep *vh.Report, seed uint64, idx int) {
 	}
 }
 
+// c11flowStuckN counts flow-control waits that were given up (items lost): later scenarios give up sooner.
+var c11flowStuckN int32
+
 func TestC11(t *testing.T) {
 	rep := vh.NewReport("C11")
 	defer rep.Finish(t)
@@ -535,7 +548,7 @@ func TestC11(t *testing.T) {
 		if i%20 == 19 {
 			c11clients(rep, seed, i/20)
 		}
-		if rep.NViolations() > 4 {
+		if rep.NViolations() > 4 || rep.NViolationEvents() > 40 {
 			break
 		}
 	}
